@@ -349,10 +349,16 @@ void DocumentBuilder::instantiation_begin(const char* name, size_t parameters, c
         handle_error(TypeException{"$Not_a_template"});
     }
 
-    /* Push parameters to frame stack.
+    /* Push parameters to frame stack. Only the last \a parameters ones belong to this
+     * instantiation: a parameter list abandoned after a syntax error may have left others behind.
      */
     frame_t frame = frame_t::create(frames.top());
-    frame.add(params);
+    if (params.get_size() > parameters) {
+        for (size_t i = params.get_size() - parameters; i < params.get_size(); ++i)
+            frame.add(params[i]);
+    } else {
+        frame.add(params);
+    }
     push_frame(frame);
     params = frame_t::create();
 }
